@@ -277,8 +277,14 @@ func (s *Sim) Fail(property, kind, sig, format string, args ...any) {
 	})
 	s.mu.Unlock()
 	s.failed.Store(true)
-	s.Wake()
+	if !s.stopped.Load() {
+		s.Wake()
+	}
 }
+
+// AdoptRoot makes the calling goroutine the one whose Fail calls count after the
+// run has stopped (history checks that run outside the bubble, e.g. porcupine).
+func (s *Sim) AdoptRoot() { s.rootG = goid() }
 
 func (s *Sim) Failed() bool { return s.failed.Load() }
 
